@@ -13,7 +13,7 @@ from pathlib import Path
 from vlib import expect as E
 
 XI = "http://www.w3.org/2001/XInclude"
-KINDS = ["prefixes", "default-ns", "attr-order", "whitespace", "comments", "pis", "cdata", "charrefs", "encoding",
+KINDS = ["prefixes", "default-ns", "attr-order", "whitespace", "comments", "pis", "cdata", "charrefs", "encoding", "shadow",
          "pad-values", "xinclude", "late-declarations"]
 
 
@@ -298,7 +298,33 @@ class Rewriter:
         if self.default and scope.get("") != self.default:
             decls.append(("", self.default))
             scope[""] = self.default
+        if ("shadow" in self.kinds or "shadow!" in self.kinds) and not root and not n.any:
+            # re-bind, for this element only, a prefix of the surrounding scope that nothing below needs (a decoy URI): the
+            # binding of the ancestor is back in force for everything that follows the element
+            used = self.subtree_uris(n)
+            mine = {p for p, _ in decls}
+            cands = sorted(p for p, u in scope.items() if p and p not in mine and u not in used and not u.startswith("urn:decoy"))
+            if cands and ("shadow!" in self.kinds or self.t.pick(3) == 0):
+                p = cands[self.t.pick(len(cands))]
+                decls.append((p, "urn:decoy:shadow"))
+                scope[p] = "urn:decoy:shadow"
+                self.applied.add("shadow")
         return decls, scope
+
+    def subtree_uris(self, n):
+        out = {n.ns} if n.ns else set()
+        for ans, _l, v in n.attrs:
+            if ans:
+                out.add(ans)
+            out |= {u for u, _x in (v.qnames or ()) if u}
+        for i in n.items:
+            if isinstance(i, Node):
+                if i.any:
+                    return out | set(self.prefix)       # generic content: assume it may need anything
+                out |= self.subtree_uris(i)
+            else:
+                out |= {u for u, _x in (i.qnames or ()) if u}
+        return out
 
     def element(self, n, in_scope, depth, root=False):
         decls, scope = self.declarations(n, in_scope, root)
